@@ -23,9 +23,9 @@ def plan(tier: str, seed: int) -> Plan:
                                    {"maxs": 2, "unicode_escape": ue, "sigma": sg, "nt": nt, "second": 5 if thorough else 3}, T * 3,
                                    required=False,
                                    bounds=f"{nt} token(s); first token <=2 characters over the first {sg} of Sigma, second from a pool (enumeration)"))
-        conds.append(Condition(f"navigation:ue={ue}", "nav", H, "navigation", {"unicode_escape": ue, "pieces": 18 if thorough else 12}, T * 2,
+        conds.append(Condition(f"navigation:ue={ue}", "nav", H, "navigation", {"unicode_escape": ue, "pieces": 18 if thorough else 14}, T * 2,
                                bounds="7 base pointers x escaped tokens from a pool of 16 (~0 ~1 digits signs blanks # - empty non-ASCII), join and /"))
-        conds.append(Condition(f"chains:ue={ue}", "nav", H, "root_and_chains", {"unicode_escape": ue, "pieces": 18 if thorough else 12}, T * 2,
+        conds.append(Condition(f"chains:ue={ue}", "nav", H, "root_and_chains", {"unicode_escape": ue, "pieces": 18 if thorough else 14}, T * 2,
                                bounds="join/join/parent/parent chains; parent of the root"))
     return Plan(
         conditions=conds,
